@@ -112,6 +112,8 @@ class World:
         if out[0] == "ok":
             if op in sends and (self.api["closed"] or not self.api["accepted"]):
                 self.problems.append(f"{op} succeeded although the application had {'already closed' if self.api['closed'] else 'not accepted'} the connection")
+            if op in ("receive_text", "receive_bytes", "iter_text", "iter_bytes") and out[1] != "<end of iteration>" and (self.api["closed"] or not self.api["accepted"]):
+                self.problems.append(f"{op} succeeded although the application had {'already closed' if self.api['closed'] else 'not accepted'} the connection")
             if op in ("accept", "accept_sub", "raw_accept") and (self.api["accepted"] or self.api["closed"]):
                 self.problems.append(f"{op} succeeded a second time / after close")
             if op in ("accept", "accept_sub", "raw_accept"):
